@@ -16,11 +16,20 @@ def target_flags(target, cc="clang"):
     return fl
 
 
+def _strict(cmd):
+    """-w silences the diagnostics that -pedantic-errors would turn into errors (gcc and clang alike): a command that asks for
+    the strict reading must not carry it."""
+    if "-pedantic-errors" in cmd:
+        cmd = [a for a in cmd if a != "-w"]
+    return cmd
+
+
 def clang_obj(src_path, obj_path, target, std="c11", extra=(), timeout=60):
     """Compile freestanding C for a cproc target; returns (Elf or None, stderr)."""
     cmd = ["clang", "--target=" + CLANG_TRIPLE[target], "-std=" + std, "-c", "-O0", "-w", "-fno-common", "-fdata-sections",
            "-ffunction-sections", "-ffreestanding", "-fno-pic", "-fno-builtin"] + \
           (["-mcmodel=medany"] if target == "riscv64" else []) + list(extra) + ["-o", obj_path, src_path]
+    cmd = _strict(cmd)
     p = run(cmd, env=ENV, timeout=timeout)
     if p.rc != 0 or p.timeout:
         return None, p.err.decode(errors="replace")
@@ -30,6 +39,7 @@ def clang_obj(src_path, obj_path, target, std="c11", extra=(), timeout=60):
 def gcc_obj(src_path, obj_path, std="c11", extra=(), timeout=60):
     cmd = ["gcc", "-std=" + std, "-c", "-O0", "-w", "-fno-common", "-fdata-sections", "-ffunction-sections",
            "-fno-pic", "-fno-pie", "-fno-builtin"] + list(extra) + ["-o", obj_path, src_path]
+    cmd = _strict(cmd)
     p = run(cmd, env=ENV, timeout=timeout)
     if p.rc != 0 or p.timeout:
         return None, p.err.decode(errors="replace")
@@ -38,6 +48,6 @@ def gcc_obj(src_path, obj_path, std="c11", extra=(), timeout=60):
 
 def syntax_ok(src_path, cc="gcc", std="c11", pedantic=True, extra=(), timeout=60):
     """Does the reference accept the unit (with -pedantic-errors)?"""
-    cmd = [cc, "-std=" + std, "-fsyntax-only", "-w"] + (["-pedantic-errors"] if pedantic else []) + list(extra) + [src_path]
+    cmd = _strict([cc, "-std=" + std, "-fsyntax-only", "-w"] + (["-pedantic-errors"] if pedantic else []) + list(extra) + [src_path])
     p = run(cmd, env=ENV, timeout=timeout)
     return p.rc == 0, p.err.decode(errors="replace")
